@@ -105,6 +105,11 @@ pub fn cur_ctx() -> Option<&'static Ctx> {
     }
 }
 
+thread_local! {
+    // how often the prefilter knob was honoured on this thread (reach probe)
+    pub static KNOB_HITS: Cell<u64> = const { Cell::new(0) };
+}
+
 /// The process-wide step hook registered with regress.
 pub fn hook(site_id: u32, aux: usize) {
     let p = CTX.with(|c| c.get());
@@ -113,6 +118,10 @@ pub fn hook(site_id: u32, aux: usize) {
     }
     let ctx = unsafe { &*p };
     if ctx.model.get() {
+        if site_id == 28 {
+            // PRED_KNOB_OFF: the library honoured the "skip the prefilter" knob
+            KNOB_HITS.with(|k| k.set(k.get() + 1));
+        }
         ctx.model_steps.set(ctx.model_steps.get() + 1);
         ctx.model_total.set(ctx.model_total.get() + 1);
         if ctx.model_steps.get() > ctx.model_fuel.get() {
